@@ -114,6 +114,8 @@ def run(prog, tier) -> Result:
 
     from ..anchors import unit_creator
     mk = unit_creator(prog)
+    from ..anchors import unit_creator_args
+    MKARGS = unit_creator_args(prog)
     nu = prog.method("QuantityMeta", "new_unit")
     du = prog.method("QuantityMeta", "derive_unit_from")
 
@@ -123,7 +125,8 @@ def run(prog, tier) -> Result:
             base_types(c)
             d = NONE if defn == "none" else TermV(RF.atom(("defmag",)), {"T1": (1, 0)})
             sym = StrV(None, "symbol")
-            return I.call_function(mk, [c.cls("T1"), sym, StrV(None, "name"), d], {})
+            a_, k_ = MKARGS(c.cls("T1"), sym, StrV(None, "name"), d)
+            return I.call_function(mk, a_, k_)
         return body
     run_entry(prog, res, "R15.1", "QuantityMeta._make_unit", "definition term", mk_body("term"),
               lambda o: judge_unit_registered(o, want_def_mag=lambda o: RF.atom(("defmag",))), min_paths=3)
